@@ -137,6 +137,23 @@ Proof.
   - intros j k j' k' H H'. split; [apply gt_index_inj; assumption | apply gt_index_order; assumption].
 Qed.
 
+(** Packing is injective on the representable range: two distinct calls never share a 32-bit word, whether the word was
+    produced by Python or by the engine (a corollary of the round trips; stated on its own because a decoder that
+    normalises two words to one call would still satisfy unpack . pack = id only if the packer were injective). *)
+Lemma thm_pack_injective : forall c1 c2 : pycall, valid_call c1 -> valid_call c2 ->
+  (Py.convert_to_encoding c1 = Py.convert_to_encoding c2 -> c1 = c2) /\
+  (engine_pack c1 = engine_pack c2 -> c1 = c2) /\
+  (Py.convert_to_encoding c1 = engine_pack c2 -> c1 = c2).
+Proof.
+  intros c1 c2 H1 H2.
+  pose proof (thm_unpack_pack c1 H1) as U1. pose proof (thm_unpack_pack c2 H2) as U2.
+  destruct (thm_engine_unpack_pack c1 H1) as [E1 [_ _]]. destruct (thm_engine_unpack_pack c2 H2) as [E2 [_ X2]].
+  split; [|split]; intros Heq.
+  - rewrite Heq in U1. rewrite U1 in U2. congruence.
+  - rewrite Heq in E1. rewrite E1 in E2. congruence.
+  - rewrite Heq in U1. rewrite U1 in X2. congruence.
+Qed.
+
 Example valid_call_examples :
   valid_call ([], true) /\ valid_call ([536870911], false) /\ valid_call ([16383; 32767], false) /\
   valid_call ([0; 32767], true) /\ ~ valid_call ([16384; 32767], false) /\ ~ valid_call ([536870912], true).
